@@ -204,7 +204,9 @@ class Model:
 
     def others(self):
         """containers used as right operands of == and of `detector.<bucket> = other`."""
-        return ("same_empty", "same_equal", "same_diff", "geo_empty", "geo_full", "kind_empty", "kind_full")
+        base = ("same_empty", "same_equal", "same_diff", "geo_empty", "geo_full", "kind_empty", "kind_full")
+        # photons: the same cube on a wavelength grid moved by 1 nm is another array (for 2-D content = same_equal)
+        return base + (("same_wlshift",) if self.kind == "photon" else ())
 
     def make_other(self, st, which):
         kind = self.kind
@@ -216,6 +218,13 @@ class Model:
                 c._array = None
             elif which == "same_equal":
                 c._array = copy.deepcopy(self.cont(st)._array)
+            elif which == "same_wlshift":
+                import xarray as xr
+
+                cur = copy.deepcopy(self.cont(st)._array)
+                if isinstance(cur, xr.DataArray) and "wavelength" in cur.coords:
+                    cur = cur.assign_coords(wavelength=np.asarray(cur.coords["wavelength"].values, dtype=float) + 1.0)
+                c._array = cur
             else:
                 c._array = make_array(f"{good}:ok:ramp") + (7 if kind == "image" else 0.5)
                 c._array = c._array.astype(good)
